@@ -15,6 +15,8 @@ func init() {
 		Run:   runC13,
 		Trusted: []string{"strconv.Atoi contract (value clamped on range error)", "net/http.Redirect writes the given status and Location"},
 		Mutants: []mutant{
+			{Name: "redirect built from a URL without RawPath", File: "route/table.go", Old: "\t\t\t\tredirect.BuildRedirectURL(req.URL)\n", New: "\t\t\t\tredirect.BuildRedirectURL(&url.URL{Host: req.Host, Path: req.URL.Path, RawQuery: req.URL.RawQuery})\n", Expect: "C13.E2"},
+
 			{Name: "cache redirect URL on shared target", File: "route/table.go", Old: "redirect := *target\n\t\t\t\tredirect.BuildRedirectURL(req.URL)\n\t\t\t\ttarget = &redirect", New: "target.BuildRedirectURL(req.URL)", Expect: "C13.S1"},
 			{Name: "redirect after proxy construction", File: "proxy/http_proxy.go", Old: "\t\tif p.Stats.RedirectCounter != nil {\n\t\t\tp.Stats.RedirectCounter.With(\"code\", strconv.Itoa(t.RedirectCode)).Add(1)\n\t\t}\n\t\treturn\n", New: "\t\tif p.Stats.RedirectCounter != nil {\n\t\t\tp.Stats.RedirectCounter.With(\"code\", strconv.Itoa(t.RedirectCode)).Add(1)\n\t\t}\n", Expect: "C13.G1"},
 			{Name: "keep Atoi value on error", File: "route/route.go", Old: "\t\t\t\tt.RedirectCode = 0\n\t\t\t\tlog.Printf(\"[ERROR] redirect status code should be numeric", New: "\t\t\t\tlog.Printf(\"[ERROR] redirect status code should be numeric", Expect: "C13.C1"},
@@ -40,6 +42,7 @@ func runC13(c *Ctx) {
 	runC13P1(c)
 	runC13L1(c)
 	runC13L2(c)
+	runC13E2(c)
 }
 
 func runC13G1(c *Ctx) {
